@@ -224,12 +224,18 @@ def coqchk(prop: str, timeout: int = 900) -> tuple[bool, str]:
     return rc == 0, out[-3000:]
 
 
+def case_dir(prop: str) -> str:
+    """Per-process directory for generated case files (two runs of the same
+    check may overlap)."""
+    return os.path.join(WORK, 'cases', f'{prop}-{os.getpid()}')
+
+
 _RESULT = re.compile(r'=\s*(.*?)\s*:\s*list nat', re.S)
 
 
 def _run_shard(args):
     prop, name, k, header, typ, chunk, checker, timeout = args
-    d = os.path.join(WORK, 'cases', prop)
+    d = case_dir(prop)
     os.makedirs(d, exist_ok=True)
     base = f'{name}_{k}'
     path = os.path.join(d, base + '.v')
@@ -276,7 +282,7 @@ def run_cases(prop: str, name: str, header: str, typ: str, cases: list[str],
 
 def eval_term(prop: str, name: str, header: str, term: str, timeout: int = 300) -> str:
     """vm_compute one term and return Coq's printed answer (for replays)."""
-    d = os.path.join(WORK, 'cases', prop)
+    d = case_dir(prop)
     os.makedirs(d, exist_ok=True)
     path = os.path.join(d, name + '.v')
     with open(path, 'w') as f:
